@@ -3,15 +3,17 @@ module conformance
 go 1.22
 
 require (
-	github.com/m7913d/go-ntlm v0.0.1
 	github.com/bolkedebruin/gokrb5/v8 v8.5.0
 	github.com/go-jose/go-jose/v4 v4.0.5
+	github.com/gorilla/sessions v1.2.2
+	github.com/m7913d/go-ntlm v0.0.1
 	github.com/patrickmn/go-cache v2.1.0+incompatible
 )
 
 require golang.org/x/crypto v0.32.0 // indirect
 
 require (
+	github.com/gorilla/securecookie v1.1.2 // indirect
 	github.com/jcmturner/dnsutils/v2 v2.0.0 // indirect
 	github.com/jcmturner/gofork v1.7.6 // indirect
 )
